@@ -132,6 +132,15 @@ def run(ctx):
     if missing:
         raise V.Machinery("antecedent never reached on the implementation for %s" % missing)
     lines = validate(ctx, obs, "cells")
+    # burst leg: many signed requests in flight at once through ONE proxy (shared signer, HMAC key, cipher, transport);
+    # each is recorded as an ordinary cell and judged by the same rules
+    bobs = os.path.join(ctx.scratch, "burst.ndjson")
+    bs = V.harness(ctx, ["fw-burst", "-in", cells, "-out", bobs, "-seed", ctx.seed, "-n", 800 if quick else 8000, "-workers", 16,
+                         "-base", 5000000])
+    if bs["forwarded"] < bs["executed"] // 2:
+        raise V.Machinery("burst leg: only %d of %d requests were forwarded (statuses %s)" % (bs["forwarded"], bs["executed"], bs["status"]))
+    validate(ctx, bobs, "burst")
+    ctx.cov["burst_requests_in_flight_together"] = {"requests": bs["executed"], "forwarded": bs["forwarded"], "workers": 16}
     nontrivial = 0
     for l in lines:
         d = json.loads(l)
